@@ -727,6 +727,9 @@ class Screen(BaseScreen, RealTerminal):
             x, y = canvas.cursor
             output += [set_cursor_position(x, y), escape.SHOW_CURSOR]
             self._cy = y
+        else:
+            # the cursor stays on the row drawn last: the next frame's relative moves start from there
+            self._cy = cy
 
         if self._resized:
             # handle resize before trying to draw screen
